@@ -1,6 +1,9 @@
 package sim
 
-import "fmt"
+import (
+	"fmt"
+	"time"
+)
 
 // sequential muxer scenarios: one writer, observation at rest after every write.
 
@@ -35,6 +38,7 @@ func runMuxSeq(r *Run, o *muxSeqOpts) {
 		if cl.err != nil {
 			r.Tracef("write %d track %d (%s) pts=%d: error %v", cl.idx, cl.track.id, cl.track.kind, cl.pts, cl.err)
 			r.Probe("write-error")
+			w.errCall = cl
 			w.next-- // the failed call is not part of the accepted history
 			w.script = w.script[:w.next]
 			break
@@ -141,4 +145,79 @@ func init() {
 	register(&PropDef{ID: "C01", Quick: 3000, Thorough: 80000, Profiles: []ProfileDef{{Name: "seq", Share: 1, Sc: scC01}}})
 	register(&PropDef{ID: "C02", Quick: 3000, Thorough: 80000, Profiles: []ProfileDef{{Name: "seq", Share: 1, Sc: scC02}}})
 	register(&PropDef{ID: "C03", Quick: 3000, Thorough: 80000, Profiles: []ProfileDef{{Name: "seq", Share: 1, Sc: scC03}}})
+}
+
+func scC16(r *Run) {
+	runMuxSeq(r, &muxSeqOpts{
+		gen:   muxGen{variants: allVariants, minCalls: 40, maxCalls: 250, paramChanges: true, negativeStart: true},
+		query: true,
+		oracle: func(w *muxWorld) {
+			w.obs.reportProblems(r, "grammar", "blocked", "fetch")
+			if !r.Failed() {
+				w.obs.analyse(r).oracleC16()
+			}
+		},
+	})
+}
+
+func scC19(r *Run) {
+	var sd time.Duration
+	runMuxSeq(r, &muxSeqOpts{
+		gen: muxGen{variants: []string{"ll"}, minCalls: 100, maxCalls: 600, paramChanges: false, constLeading: true, singleAUAudio: false},
+		oracle: func(w *muxWorld) {
+			w.obs.reportProblems(r, "grammar", "blocked")
+			if r.Failed() {
+				return
+			}
+			lt := w.cfg.leadingTrack()
+			if len(lt.units) >= 2 {
+				sd = spanDur(lt.units[1].dts-lt.units[0].dts, lt.clock)
+			}
+			w.obs.analyse(r).oracleC19(sd)
+			r.Cell("c19 lead=%s sd=%v partMin=%v", lt.kind, sd.Round(time.Millisecond), w.cfg.partMin)
+		},
+	})
+}
+
+func init() {
+	register(&PropDef{ID: "C16", Quick: 2000, Thorough: 40000, Profiles: []ProfileDef{{Name: "seq", Share: 1, Sc: scC16}}})
+	register(&PropDef{ID: "C19", Quick: 3000, Thorough: 60000, Profiles: []ProfileDef{{Name: "seq", Share: 1, Sc: scC19}}})
+}
+
+func scC18(big bool) Scenario {
+	return func(r *Run) {
+		g := muxGen{variants: allVariants, minCalls: 500, maxCalls: 4000, fastRotation: true}
+		if big {
+			g = muxGen{variants: allVariants, minCalls: 60, maxCalls: 600, fastRotation: true, bigPayloads: true}
+		}
+		runMuxSeq(r, &muxSeqOpts{
+			gen: g,
+			onWrite: func(w *muxWorld, cl *writeCall) {
+				w.obs.boundsAtRest(r)
+				if w.next%16 == 0 {
+					w.obs.checkGone()
+				}
+			},
+			oracle: func(w *muxWorld) {
+				w.obs.reportProblems(r, "grammar", "blocked", "fetch", "gone")
+				if r.Failed() {
+					return
+				}
+				w.obs.boundsAtRest(r)
+				if !r.Failed() {
+					w.obs.analyse(r).oracleC18(w.errCall)
+				}
+				if w.errCall != nil {
+					r.Cell("c18 size-error %s", w.cfg.vname)
+				}
+			},
+		})
+	}
+}
+
+func init() {
+	register(&PropDef{ID: "C18", Quick: 400, Thorough: 6000, Profiles: []ProfileDef{
+		{Name: "long", Share: 1, Sc: scC18(false)},
+		{Name: "size", Share: 1, Sc: scC18(true)},
+	}})
 }
